@@ -129,10 +129,21 @@ Proof.
   rewrite Hpar, Hcont, Hleaf. tauto.
 Qed.
 
+Lemma mem_id_false : forall x l, mem_id x l = false -> ~ In x l.
+Proof. intros x l H Hin. apply mem_id_iff in Hin. congruence. Qed.
+Lemma nodup_ids_iff : forall l, nodup_ids l = true <-> NoDup l.
+Proof.
+  induction l as [|x t IH]; cbn; split; intros H; try reflexivity; try constructor.
+  - apply andb_true_iff in H. destruct H as [H1 H2]. apply mem_id_false. destruct (mem_id x t); [discriminate | reflexivity].
+  - apply andb_true_iff in H. apply IH. apply H.
+  - inversion H as [|? ? Hn Hnd]; subst. apply andb_true_iff. split; [|apply IH; exact Hnd].
+    destruct (mem_id x t) eqn:E; [|reflexivity]. exfalso. apply Hn. apply mem_id_iff. exact E.
+Qed.
+
 Theorem inv_check_iff : forall s, inv_check s = true <-> Inv s.
 Proof.
-  intros s. unfold inv_check. rewrite !andb_true_iff, nodup_paths_iff, !forallb_forall. split.
-  - intros [[Hnd He] Hr].
+  intros s. unfold inv_check. rewrite !andb_true_iff, nodup_paths_iff, nodup_ids_iff, !forallb_forall. split.
+  - intros [[[Hnd He] Hr] Hrn].
     assert (Hent : forall p o, rget p (allobj s) = Some o -> entry_ok s p o).
     { intros p o Hp. apply (check_entry_iff s p o Hnd). apply He. apply (aget_in path_eqb path_eqb_eq). exact Hp. }
     constructor.
@@ -149,7 +160,8 @@ Proof.
     + intros o q [p Hp] Hq H1 H2. destruct (Hent p o Hp) as [_ [_ [H _]]]. rewrite Hq in H. apply H; assumption.
     + intros o q [p Hp] Hq H1. destruct (Hent p o Hp) as [_ [_ [H _]]]. rewrite Hq in H. apply H; assumption.
     + intros o [p Hp] H1. destruct (Hent p o Hp) as [_ [_ [_ [_ [H _]]]]]. apply H. exact H1.
-  - intros HI. assert (Hnd := inv_keys s HI). split; [split; [exact Hnd|]|].
+    + exact Hrn.
+  - intros HI. assert (Hnd := inv_keys s HI). split; [split; [split; [exact Hnd|]|]|apply (inv_rnodup s HI)].
     + intros [p o] Hin. apply (check_entry_iff s p o Hnd).
       assert (Hp : rget p (allobj s) = Some o) by (apply (in_aget path_eqb path_eqb_eq); assumption).
       assert (Ho : reg s o) by (exists p; exact Hp).
